@@ -38,7 +38,7 @@ BUDGET_S = {'quick': 240, 'thorough': 2400}
 
 FEATS = ('hier', 'abstract', 'unreg', 'extra', 'enum', 'strlike', 'any',
          'untyped', 'date', 'path', 'buf', 'abstract_containers', 'defaults',
-         'multi', 'raises', 'hooks', 'permissive', 'opt_any', 'underscore', 'recursive')
+         'multi', 'raises', 'hooks', 'permissive', 'opt_any', 'underscore', 'recursive', 'seasoned')
 
 TOKENS = ['a', 'b', 'x', '1', '1.5', 'true', '~', 'null', ':', ': ', '- ', '-',
           '? ', ',', '[', ']', '{', '}', '&a ', '*a', '&b ', '*b', '!A ', '!B ',
@@ -147,6 +147,10 @@ def special_text(draw, spec):
                                     '2001-01-01 25:61:61', '2001-02-30',
                                     '2001-01-01t10:00:00+99:99']))
         subs = [p for p, s in T.subtrees(t) if s[0] == 's']
+        nums = [p for p, s in T.subtrees(t) if s[0] == 's' and not s[2]
+                and s[1].lstrip('-').replace('.', '', 1).isdigit()]
+        if nums and draw(st.booleans()):
+            subs = nums         # a malformed number where a number is expected
         if subs:
             p = draw(st.sampled_from(subs))
             marker = 'ZZQQ'
